@@ -12,7 +12,13 @@ def short(loc):
 # --------------------------------------------------------------------------
 # W1: who writes a field
 # --------------------------------------------------------------------------
-def field_writers(db, field, accessors=()):
+# callees that take forwarding / non-const references but only read their argument
+READONLY_SINKS = ("celeritas::detail::LoggerMessage::operator<<", "std::operator<<",
+                  "std::basic_ostream::operator<<", "celeritas::repr", "std::forward", "std::move",
+                  "celeritas::forward", "celeritas::move", "std::min", "std::max")
+
+
+def field_writers(db, field, accessors=(), skip_path=None):
     """All (Func, event, how) that write `field` (qualified `Rec::name`),
     directly, via a reference-returning accessor in `accessors`, or by handing
     a non-const pointer/reference of it to a callee."""
@@ -22,12 +28,14 @@ def field_writers(db, field, accessors=()):
         for bid, i, ev in f.events():
             if ev["e"] == "write":
                 p = ev.get("path")
-                if p and path_leaf(p) in leaves:
+                if p and path_leaf(p) in leaves and not (skip_path and skip_path(p)):
                     out.append((f, ev, "write"))
             elif ev["e"] == "call":
+                if ev["callee"] in READONLY_SINKS:
+                    continue
                 for a in ev.get("args", []):
                     if a.get("mode") in ("ptr", "ref") and a.get("path"):
-                        if path_leaf(a["path"]) in leaves:
+                        if path_leaf(a["path"]) in leaves and not (skip_path and skip_path(a["path"])):
                             out.append((f, ev, "arg:" + ev["callee"]))
     return out
 
